@@ -267,7 +267,7 @@ def check_cross(case, hist, cache):
     return None, ''
 
 
-def run_one(case, first, switches, record_tids=False, free=False, handoff=False, prebuilt=None):
+def run_one(case, first, switches, record_tids=False, free=False, handoff=False, prebuilt=None, script=None):
     cache, model, st0 = prebuilt if prebuilt is not None else build(case)
     do_op = make_do_op(cache)
     mon = monitor()
@@ -276,7 +276,7 @@ def run_one(case, first, switches, record_tids=False, free=False, handoff=False,
         sc = None
     else:
         sc = S.Sched(len(case['programs']), first, switches,
-                     event_budget=case.get('budget', 50000), handoff=handoff)
+                     event_budget=case.get('budget', 50000), handoff=handoff, script=script)
         sc.record_tids = record_tids
         if S.HOLDER_STATS.get('locks_created', 0) == 0:
             # the cache created no lock through cacheutils.RLock: the shim cannot see lock waits
@@ -290,9 +290,9 @@ def jsonable_hist(hist):
              'res': common.jsonable(h['res'])} for h in hist]
 
 
-def judge(case, first, switches, stats, free=False, record_tids=False, handoff=False, prebuilt=None):
+def judge(case, first, switches, stats, free=False, record_tids=False, handoff=False, prebuilt=None, script=None):
     """Run one schedule and decide it.  Returns (kind or None, detail, sched)."""
-    cache, model, st0, hist, status, sc = run_one(case, first, switches, record_tids, free, handoff, prebuilt)
+    cache, model, st0, hist, status, sc = run_one(case, first, switches, record_tids, free, handoff, prebuilt, script)
     if status == 'no-lock-attribute':
         stats.count('inconclusive:no-lock-attribute')
         return None, '', None
@@ -518,6 +518,60 @@ def explore_all_pairs(ctx, case, label):
                     report(ctx, case, first, sw, kind, detail)
 
 
+def sandwich_cases():
+    """One operation of thread 0 against TWO whole operations of thread 1 that undo each other as far as the key is
+    concerned (evict it / put it back, delete / re-insert, clear / re-insert, overwrite twice): thread 0 is
+    pre-empted twice, each time for exactly one operation of thread 1."""
+    out = []
+    readers = [['getitem', 'a'], ['get', 'a', None], ['setdefault', 'a', 7], ['pop', 'a', None], ['set', 'a', 9],
+               ['contains', 'a'], ['del', 'a'], ['update', [['a', 8]]], ['copy'], ['eq', [['a', 0]]], ['popitem']]
+    for cls in ('LRI', 'LRU'):
+        for ms, prefill, pairs in (
+                (1, [['a', 0]], [(['set', 'b', 5], ['set', 'a', 6]), (['del', 'a'], ['set', 'a', 6]),
+                                 (['clear'], ['set', 'a', 6]), (['set', 'a', 5], ['set', 'a', 6]),
+                                 (['pop', 'a'], ['setdefault', 'a', 6])]),
+                (2, [['a', 0], ['b', 1]], [(['update', [['c', 5], ['d', 6]]], ['update', [['b', 7], ['a', 8]]]),
+                                           (['del', 'a'], ['set', 'a', 6]), (['clear'], ['update', [['a', 6], ['b', 7]]]),
+                                           (['popitem'], ['set', 'a', 6])])):
+            for rd in readers:
+                for w1, w2 in pairs:
+                    out.append({'cls': cls, 'max_size': ms, 'on_miss': False, 'prefill': prefill,
+                                'programs': [[rd], [w1, w2]]})
+    return out
+
+
+def explore_sandwich(ctx, case, label, cap):
+    st = ctx.stats
+    kind, detail, sc = judge(case, 0, [], st, record_tids=True)
+    st.evaluations += 1
+    if sc is None:
+        return
+    if kind is not None:
+        report(ctx, case, 0, [], kind, detail)
+        return
+    n0 = sum(1 for t in sc.event_tid if t == 0)      # bytecode events of thread 0's operation when it runs alone
+    case['budget'] = 40 * sc.events + 5000
+    pairs = [(i, j) for i in range(1, n0 + 1) for j in range(i + 1, n0 + 1)]
+    if len(pairs) > cap:
+        r = ctx.rng('sandwich', label)
+        pairs = sorted(r.sample(pairs, cap))
+        st.count('sandwich_programs_sampled')
+    else:
+        st.count('sandwich_programs_exhaustive')
+    for i, j in pairs:
+        if ctx.out_of_time():
+            st.notes.append('%s: sandwich sweep cut short' % label)
+            return
+        script = [[0, i], [1, 'op'], [0, j - i], [1, 'op'], [0, 'end']]
+        kind, detail, sc2 = judge(case, 0, [], st, script=script)
+        st.evaluations += 1
+        if sc2 is not None and len(sc2.made) >= 3:
+            st.count('sandwich_schedules_effective')
+            st.see((label, 'sandwich', tuple(sc2.made)))
+        if kind is not None:
+            report(ctx, case, 0, [], kind, detail, script=script)
+
+
 def report(ctx, case, first, switches, kind, detail, **extra):
     wit = {'case': case, 'first': first, 'switches': [list(s) for s in switches]}
     wit.update(extra)
@@ -672,6 +726,13 @@ def run(ctx):
             if j % ctx.nshards == ctx.shard % max(1, min(ctx.nshards, len(extra))):
                 ctx.stats.count('two_cache_programs')
                 explore_all_pairs(ctx, case, 'x%d.%d' % (ctx.shard, j))
+        sand = sandwich_cases()
+        for j, case in enumerate(sand):
+            if j % ctx.nshards == ctx.shard:
+                if not ctx.thorough and (j // ctx.nshards) % 3 != ctx.rng('sandpick').randrange(3) and False:
+                    continue
+                ctx.stats.count('sandwich_programs')
+                explore_sandwich(ctx, case, 's%d.%d' % (ctx.shard, j), 4000 if ctx.thorough else 60)
         if ctx.shard % 2 == 0:
             explore_big_update(ctx, 'LRI' if ctx.shard % 4 == 0 else 'LRU', 'big%d' % ctx.shard)
         else:
@@ -716,7 +777,7 @@ def replay(witness):
                             return '%s (switch at event %d -> thread %d): %s' % (kind, k, tgt, detail[:300])
             return None
         kind, detail, _ = judge(case, witness['first'], [tuple(s) for s in witness['switches']], st,
-                                handoff=bool(witness.get('handoff')))
+                                handoff=bool(witness.get('handoff')), script=witness.get('script'))
         return '%s: %s' % (kind, detail[:300]) if kind else None
     finally:
         global _monitor
